@@ -1,14 +1,20 @@
 import CryoCat.Model.Particle
 import CryoCat.Model.M3
 import CryoCat.Gen.C10
-/-! C10 — model of `Motl.split_in_asymmetric_subunits` (cyclic branch, after repair 837c2ef) followed by
-`Motl.update_coordinates` (cryocat/cryomotl.py). Mathlib-free, polymorphic in the number type: the driver
-runs these definitions at `Float`, `Props/C10` proves theorems about them over any commutative ring /
-ordered field with a floor.
+/-! C10 — model of `Motl.split_in_asymmetric_subunits` (cyclic branch, after repairs 837c2ef, f9fba9c, 7710334)
+followed by `Motl.update_coordinates` (cryocat/cryomotl.py). Mathlib-free, polymorphic in the number type: the
+driver runs these definitions at `Float` (rounding: at `Rat`, on the exact value of the float), `Props/C10`
+proves theorems about them over any commutative ring / ordered field.
 
-External numeric services are parameters (`Svc`): cosine/sine of an angle given in degrees and `floor`.
-An orientation is a 3×3 matrix; the code stores it as `as_euler("zxz")` of that matrix (scipy; recorded
-assumption), so the model's output carries the matrix itself. -/
+External numeric services are parameters (`Svc`): cosine/sine of an angle given in degrees and the rounding
+`Decimal(v).to_integral_value(ROUND_HALF_UP)`. An orientation is a 3×3 matrix; the code stores it as
+`as_euler("zxz")` of that matrix (scipy; recorded assumption), so the model's output carries the matrix itself.
+
+Since 7710334 the row bookkeeping of the code IS the model's, statement by statement:
+`parent_order = np.argsort(ids, kind="stable")` = `sortParents` (stable merge sort by id — parents with EQUAL ids
+keep their row order, nothing is assumed about ids being unique), `df.iloc[np.repeat(parent_order, n)]` =
+`flatMap (fun P => (List.range n).map …)` (n consecutive copies per parent), `np.tile(arange(1, n+1), N)` = the
+`k+1` of the inner `range n`. -/
 namespace CryoCat.C10
 variable {α : Type}
 
@@ -35,12 +41,13 @@ end Ang
 structure Svc (α : Type) where
   /-- (cos, sin) of an angle given in degrees -/
   trig : α → Ang α
-  floor : α → α
-  /-- 1/2 -/
-  half : α
+  /-- `float(decimal.Decimal(v).to_integral_value(rounding=decimal.ROUND_HALF_UP))`: `Decimal(v)` is the EXACT
+  value of the binary float, so this is exact rounding half away from zero — the driver evaluates `roundHalfUp`
+  (below) at `Rat` on the exact value of the float; over an ordered field any `round` with `RoundSpec` will do -/
+  round : α → α
 
 /-! field names re-extracted from the source (`Gen/C10.lean`); `Props/C10` proves they are the documented ones -/
-def fieldOf (s : String) : Field := (Field.ofName? s).getD .score
+def fieldOf (s : String) : Field := (Field.ofName? s).getD .score   -- the translator never emits an unknown name: a missing anchor falls back to the DOCUMENTED name (and fails `anchors_ok`)
 def parentSrcF : Field := fieldOf Gen.C10.parentSrc
 def parentDstF : Field := fieldOf Gen.C10.parentDst
 def indexDstF : Field := fieldOf Gen.C10.indexDst
@@ -69,7 +76,9 @@ def orientOf (sv : Svc α) (P : Particle α) : M3 α :=
       (sv.trig (P.get (angleF 1))).c (sv.trig (P.get (angleF 1))).s
       (sv.trig (P.get (angleF 2))).c (sv.trig (P.get (angleF 2))).s
 
-/-- `decimal.ROUND_HALF_UP`: nearest integer, ties away from zero -/
+/-- `decimal.ROUND_HALF_UP`: nearest integer, ties away from zero — the floor formula. EXACT only where `v + half`
+is (ℚ, ℝ); evaluated in binary floating point `0.49999999999999994 + 0.5` is `1.0` and the formula would answer 1
+where `Decimal` answers 0, which is why the driver runs it at `Rat` -/
 def roundHalfUp [LT α] [DecidableLT α] (fl : α → α) (half v : α) : α :=
   if v < 0 then -(fl (-v + half)) else fl (v + half)
 
@@ -80,16 +89,16 @@ def stepAng [Div α] [NatCast α] (sv : Svc α) (n : Nat) : Ang α :=
 /-- the `k`-th (0-based) subunit of parent `P`, before the final renumbering of `subtomo_id`:
 `phi_k = k·360/n`; `shift += R·(Rz(phi_k)·s)`; orientation `R·Rz(phi_k)`; `geom5 = parent id`,
 `geom2 = k+1`; then `update_coordinates` (round the complete position, keep the rest as shift). -/
-def subunit [Div α] [NatCast α] [LT α] [DecidableLT α] (sv : Svc α) (n : Nat) (s : V3 α) (P : Particle α) (k : Nat) : SubU α :=
+def subunit [Div α] [NatCast α] (sv : Svc α) (n : Nat) (s : V3 α) (P : Particle α) (k : Nat) : SubU α :=
   let R := orientOf sv P
   let ak := Ang.nsmul k (stepAng sv n)
   let d := R.apply (ak.rz.apply s)
   let vx := P.x + (P.shift_x + d.x)
   let vy := P.y + (P.shift_y + d.y)
   let vz := P.z + (P.shift_z + d.z)
-  let rx := roundHalfUp sv.floor sv.half vx
-  let ry := roundHalfUp sv.floor sv.half vy
-  let rz := roundHalfUp sv.floor sv.half vz
+  let rx := sv.round vx
+  let ry := sv.round vy
+  let rz := sv.round vz
   let p1 := (P.set parentDstF (P.get parentSrcF)).set indexDstF (((k + Gen.C10.indexStart : Nat) : α))
   { p := { p1 with x := rx, y := ry, z := rz, shift_x := vx - rx, shift_y := vy - ry, shift_z := vz - rz },
     orient := R * ak.rz }
@@ -99,20 +108,119 @@ def renum [NatCast α] : Nat → List (SubU α) → List (SubU α)
   | _, [] => []
   | i, u :: us => u.setId (((i + Gen.C10.idStart : Nat) : α)) :: renum (i + 1) us
 
-/-- `sort_values(by="subtomo_id")` on the parents (ids unique: no ties) -/
+/-- `parent_order = np.argsort(self.df["subtomo_id"].to_numpy(), kind="stable")`: the parents in ascending id,
+parents with the same id in their row order (`List.mergeSort` is stable: `List.sublist_mergeSort`) -/
 def sortParents [LE α] [DecidableLE α] (l : List (Particle α)) : List (Particle α) :=
   l.mergeSort (fun p q => decide (p.get sortKeyF ≤ q.get sortKeyF))
 
-def expandCore [Div α] [NatCast α] [LT α] [DecidableLT α] [LE α] [DecidableLE α]
+/-- `self.df.iloc[np.repeat(parent_order, n_subunits)]` with the tiled per-parent tables: `n` consecutive rows per
+parent, the `k`-th (0-based) carrying index `k+1`, angle `k·360/n` and offset `Rz(k·360/n)·s` -/
+def expandCore [Div α] [NatCast α] [LE α] [DecidableLE α]
     (sv : Svc α) (n : Nat) (s : V3 α) (l : List (Particle α)) : List (SubU α) :=
   (sortParents l).flatMap (fun P => (List.range n).map (subunit sv n s P))
 
 /-- the whole function for `n`-fold cyclic symmetry and subunit offset `s` -/
-def expand [Div α] [NatCast α] [LT α] [DecidableLT α] [LE α] [DecidableLE α]
+def expand [Div α] [NatCast α] [LE α] [DecidableLE α]
     (sv : Svc α) (n : Nat) (s : V3 α) (l : List (Particle α)) : List (SubU α) :=
   renum 0 (expandCore sv n s l)
 
 end model
+
+/-! ### exact rounding on rationals (what the driver hands to `Svc.round`) -/
+
+/-- `roundHalfUp` at `Rat` with the rational floor — exact, so it IS `Decimal(v).to_integral_value(ROUND_HALF_UP)`
+on the exact value `v` of a binary float -/
+def ratRound (q : Rat) : Rat := roundHalfUp (fun v => ((v.floor : Int) : Rat)) (1 / 2) q
+
+/-! ### the symmetry argument: `'Cn'` / `'cn'` string or a number -/
+
+/-- `\d` on ASCII text -/
+def isDig (c : Char) : Bool := decide ('0' ≤ c) && decide (c ≤ '9')
+
+theorem length_dropWhile_le' (p : Char → Bool) : ∀ l : List Char, (l.dropWhile p).length ≤ l.length
+  | [] => Nat.le_refl _
+  | c :: cs => by
+    simp only [List.dropWhile_cons]
+    split
+    · exact Nat.le_succ_of_le (length_dropWhile_le' p cs)
+    · exact Nat.le_refl _
+
+/-- `re.findall(r"\d+", s)`: the maximal runs of digits, left to right -/
+def findallDigits : List Char → List (List Char)
+  | [] => []
+  | c :: cs =>
+    if isDig c then (c :: cs.takeWhile isDig) :: findallDigits (cs.dropWhile isDig)
+    else findallDigits cs
+termination_by l => l.length
+decreasing_by
+  · simp only [List.length_cons]; exact Nat.lt_succ_of_le (length_dropWhile_le' _ _)
+  · simp only [List.length_cons]; exact Nat.lt_succ_self _
+
+/-- `int("0123")`: decimal value of a run of digits (leading zeros allowed) -/
+def natOfDigits (ds : List Char) : Nat := ds.foldl (fun acc c => acc * 10 + (c.toNat - '0'.toNat)) 0
+
+/-- decimal digits of `n`, least significant first, by fuel -/
+def revDigitsAux : Nat → Nat → List Char
+  | 0, _ => []
+  | fuel + 1, n => Nat.digitChar (n % 10) :: (if n / 10 = 0 then [] else revDigitsAux fuel (n / 10))
+/-- decimal digits of `n` without leading zeros, most significant first (Python `str(n)`) -/
+def digits (n : Nat) : List Char := (revDigitsAux (n + 1) n).reverse
+
+/-- how the symmetry argument arrives -/
+inductive Sym where
+  /-- a Python `str` (its characters) -/
+  | str (cs : List Char)
+  /-- a number whose `int(...)` is `n` -/
+  | num (n : Nat)
+deriving Repr, DecidableEq
+
+/-- what the head of the function makes of the argument -/
+inductive SymKind where
+  | cyclic (n : Nat)
+  | dihedral (n : Nat)
+  /-- no digits in the string: `re.findall(...)[-1]` raises IndexError -/
+  | raises
+  /-- a string starting with neither c/C nor d/D: `s_type` stays unbound (the ValueError is built, not raised) -/
+  | unbound
+deriving Repr, DecidableEq
+
+/-- `nfold = int(re.findall(r"\d+", symmetry)[-1])`; cyclic when `symmetry.lower().startswith("c")`;
+a number is cyclic with `nfold = int(symmetry)` -/
+def parseSym : Sym → SymKind
+  | .num n => .cyclic n
+  | .str cs =>
+    match (findallDigits cs).getLast? with
+    | none => .raises
+    | some run =>
+      let n := natOfDigits run
+      match cs.head? with
+      | some c => if c.toLower = 'c' then .cyclic n else if c.toLower = 'd' then .dihedral n else .unbound
+      | none => .unbound
+
+/-- the whole function on the argument as given: `none` = not a cyclic request (outside C10) or the call raises;
+`nfold = 0` raises too (`360 / 0`) -/
+def expandSym [OfNat α 0] [OfNat α 1] [Neg α] [Add α] [Sub α] [Mul α] [Div α] [NatCast α] [LE α] [DecidableLE α]
+    (sv : Svc α) (sym : Sym) (s : V3 α) (l : List (Particle α)) : Option (List (SubU α)) :=
+  match parseSym sym with
+  | .cyclic n => if n = 0 then none else some (expand sv n s l)
+  | _ => none
+
+/-! ### the row bookkeeping before repair 7710334 (regression witness D28) -/
+
+/-- stable insertion sort by key (numpy's `quicksort` IS insertion sort below 17 elements) -/
+def insertByKey (a : Nat × Nat) : List (Nat × Nat) → List (Nat × Nat)
+  | [] => [a]
+  | b :: bs => if b.2 ≤ a.2 then b :: insertByKey a bs else a :: b :: bs
+def sortByKey (l : List (Nat × Nat)) : List (Nat × Nat) := l.foldl (fun acc a => insertByKey a acc) []
+
+/-- rows are (row label, subtomo_id). As-is: `pd.concat([df]*n)`, `sort_values(by="subtomo_id")`, then the tiled
+per-parent index table `np.tile(arange(1, n+1), N)` laid over the result by position: (row, geom2) -/
+def oldBookkeeping (n : Nat) (l : List (Nat × Nat)) : List ((Nat × Nat) × Nat) :=
+  (sortByKey (List.replicate n l).flatten).zipIdx.map (fun x => (x.1, x.2 % n + Gen.C10.indexStart))
+
+/-- repaired: parents in stable id order, each repeated `n` times, the same tiled table -/
+def newBookkeeping (n : Nat) (l : List (Nat × Nat)) : List ((Nat × Nat) × Nat) :=
+  ((sortByKey l).flatMap (fun r => List.replicate n r)).zipIdx.map (fun x => (x.1, x.2 % n + Gen.C10.indexStart))
 
 /-! ### the code as it was before repair 837c2ef (regression witness D12) -/
 
